@@ -49,14 +49,14 @@ def cases(tier, seed):
     batches = [[], [2]] if tier == "quick" else [[], [2], [1], [2, 3], [2, 1]]
     for name, term in terms(tier):
         depth1 = "(" not in name
-        for b in batches:
+        for b in batches + ([[3, 2]] if (tier == "quick" and depth1) else []):  # (two batch dimensions of distinct sizes for every class)
             for dt in (["f64", "f32"] if (depth1 or tier == "thorough") else ["f64"]):
                 out.append({"name": name, "term": term, "batch": b, "dtype": dt})
     return out
 
 
 def bounds(tier):
-    return {"nesting_depth": 2 if tier == "quick" else 3, "n": 3, "batches": "(),(2,)" if tier == "quick" else "(),(2,),(1,),(2,3),(2,1)",
+    return {"nesting_depth": 2 if tier == "quick" else 3, "n": 3, "batches": "(),(2,); depth-1 terms also (3,2)" if tier == "quick" else "(),(2,),(1,),(2,3),(2,1)",
             "dtypes": "float64 everywhere, float32 at depth 1 (quick) / everywhere (thorough)",
             "rhs_kinds": list(RHS), "lhs_kinds": list(LHS)}
 
